@@ -19,6 +19,11 @@ Seeds(c) ==
     [] c = "VCOLL" -> {<<<<<<1, 2>>, <<4, 6>>>>>>, <<<<<<3, 4>>>>>>}
     [] c = "COLL" -> {<<-1, -1, 1>>, <<0, 20, 2>>}
     [] c = "PARENT" -> {<<5, 8, "", "+">>, <<5, -1, "+", "+">>}
+    [] c = "QPOS" -> {<<10, 40, 12, 30, TRUE, TRUE>>, <<10, 40, 0, 30, FALSE, TRUE>>, <<5, 40, 6, 0, TRUE, FALSE>>,
+                      <<0, 40, 0, 20, TRUE, TRUE>>, <<3, 30, 0, 0, FALSE, FALSE>>}
+    [] c = "FSI" -> {<<<<<<"P", 1, "chromosome">>, <<"P", 1, "chromosome">>>>, <<"+", "+">>>>,
+                     <<<<<<"P", 0, "chromosome">>, <<"P", 0, "chromosome">>, <<"P", 0, "chromosome">>>>, <<"-", "-", "-">>>>,
+                     <<<<<<>>, <<>>>>, <<"+", "+">>>>, <<<<<<"P", 2, "plasmid">>>>, <<"-">>>>}
     [] c = "CODON" -> {<<<<"G", "C", "A">>>>, <<<<"a", "t", "g">>>>, <<<<"N", "R", "y">>>>}
 Init == cls \in Classes /\ args \in Seeds(cls) /\ kind = "none" /\ phase = "seed"
 DoCorrupt(k) == /\ phase = "seed" /\ Corrupt(cls, args, k) # args
